@@ -149,10 +149,14 @@ def run(ctx):
         scen += THOROUGH_EXTRA
         repeat = 3 if tier == "thorough" else 2
     results = run_scenarios(exe, scen, repeat) + run_main_scenarios(MAIN_SCEN)
-    vg = []
-    if tier == "thorough":
-        exe_ns, _ = SC.build("none")
-        vg = run_scenarios(exe_ns, [QUICK[0], QUICK[1]], 1, valgrind=True)
+    # valgrind memcheck (uninitialised values that decide a branch are invisible to ASan / UBSan): the small raw-mesh scenarios also in the
+    # quick tier — nodes created by split_edge / merge_edge go through the contact phase of the same iteration before any normal / curvature
+    # computation has touched them
+    exe_ns, _ = SC.build("none")
+    vg_scen = [s for s in QUICK if s[0] in ("cube-refine-raw", "4cubes-refine-raw-swap")]
+    if tier == "thorough" or not proof["ok"]:
+        vg_scen = [QUICK[0]] + vg_scen + [s for s in QUICK if s[0] in ("4cubes-contacts", "2cubes-removal")]
+    vg = run_scenarios(exe_ns, vg_scen, 1, valgrind=True)
     problems = 0
     reached_destructor = 0
     clean_exceptions = 0
